@@ -75,9 +75,35 @@ def clear_cache():
     _SRC_CACHE.clear()
 
 
+LOCKS = os.path.join(SPECS, 'locks')
+
+
+def lock_path(template_path):
+    rel = os.path.relpath(template_path, SPECS)
+    return os.path.join(LOCKS, rel.replace(os.sep, '__') + '.json')
+
+
+def load_lock(template_path):
+    p = lock_path(template_path)
+    if os.path.exists(p):
+        import json
+        return json.load(open(p))
+    return {}
+
+
+def write_lock(template_path, R):
+    import json
+    os.makedirs(LOCKS, exist_ok=True)
+    d = {}
+    for k, fr in enumerate(R.fn_ranges):
+        d['%d:%s' % (k, fr['src_name'])] = dict(skeleton=fr['meta']['skeleton'], anchors=fr['meta']['anchors'])
+    json.dump(d, open(lock_path(template_path), 'w'), indent=1, sort_keys=True)
+
+
 def render(template_path, repo, canary_fn=None, canary_kind='post'):
     """canary_fn: index into fn_ranges order (int) of the function that gets the canary clause."""
     R = Rendered()
+    R.lock = load_lock(template_path)
     _render_file(R, template_path, repo, canary_fn, canary_kind, depth=0)
     return R
 
@@ -187,7 +213,7 @@ def _render_file(R, path, repo, canary_fn, canary_kind, depth):
             if canary_fn is not None and canary_fn == idx:
                 _add_canary(sp, canary_kind)
             src = load_src(repo, f)
-            out, meta = X.extract_function(src, f, cont, name, sp, opts)
+            out, meta = X.extract_function(src, f, cont, name, sp, opts, lock=getattr(R, 'lock', {}).get('%d:%s' % (idx, name)))
             start = len(R.lines) + 1
             for text, org in out:
                 if org[0] == 'spec':
